@@ -255,6 +255,22 @@ def c01(tier, rng):
         if n % 4001 == 0:
             res.samples.append({'text': t[:80], 'tok': impl[o][:160]})
     res.extra['work_bound'] = {'A': WORK_A, 'B': WORK_B, 'worst_observed_slope': round(worst, 2)}
+    # loader work on nested complex keys: each level re-hashes its whole (nested) key
+    import subprocess, time as _t
+    t0 = _t.time()
+    try:
+        subprocess.run([IMPL, '--deep', 'loaddrop', 'key', '12000'], capture_output=True, timeout=120)
+    except subprocess.TimeoutExpired:
+        pass
+    dt = _t.time() - t0
+    t0 = _t.time()
+    subprocess.run([IMPL, '--deep', 'load', 'key', '12000'], capture_output=True, timeout=120)
+    dt_parse = _t.time() - t0
+    res.extra['nested_key_load_seconds'] = {'load_from_str': round(dt, 2), 'events_only': round(dt_parse, 2)}
+    res.evaluations += 1
+    if dt > 1.5 and dt > 20 * dt_parse:
+        res.oracle_failures.append({'sig': 'C01:loader-quadratic-nested-keys', 'what': f'load_from_str of 12000 nested explicit keys (24 kB) took {dt:.1f}s while the event interface took {dt_parse:.2f}s',
+                                    'reqs': ['--deep loaddrop key 12000'], 'input': "'? ' x 12000 + 'a'"})
     return res
 
 
@@ -1860,7 +1876,8 @@ def c20(tier, rng):
 def c11(tier, rng):
     import subprocess
     res = Result()
-    depths = [1, 10, 100, 1000, 10000] + ([100000] if tier == 'thorough' else [30000])
+    # powers of two are where fixed-width counters wrap: 2^8 (flow level), 2^16
+    depths = [1, 10, 100, 255, 256, 257, 1000, 10000, 30000, 65535, 65536, 70000] + ([100000, 140000] if tier == 'thorough' else [])
     res.rule = f"nesting depth in {depths} x shape (block sequence, block mapping, explicit key, flow sequence, flow mapping, alternating) x API (iterator, push, load_from_str + drop, emit); non-trivial = depth >= 10"
     res.corr_ops = []
     def run(api, shape, depth):
@@ -1871,7 +1888,9 @@ def c11(tier, rng):
             return 'timeout'
     # the block-mapping shape needs growing indentation: its text is quadratic in the depth, so it is capped
     jobs = [(api, shape, d) for api in ('iter', 'load', 'loaddrop', 'emit') for shape in ('seq', 'map', 'key', 'fseq', 'fmap', 'alt') for d in depths
-            if not (api == 'emit' and shape != 'seq') and not (shape == 'map' and d > 10000)]
+            if not (api == 'emit' and shape != 'seq') and not (shape == 'map' and d > 10000)
+            # loading nested complex keys re-hashes the whole key at every level (quadratic; recorded under C01): capped
+            and not (api == 'loaddrop' and shape in ('key', 'alt') and d > 10000)]
     from concurrent.futures import ThreadPoolExecutor
     with ThreadPoolExecutor(max_workers=8) as ex:
         rcs = list(ex.map(lambda j: run(*j), jobs))
